@@ -132,6 +132,53 @@ func (p *Program) SSA(rel string) *ssa.Package {
 // function through types.Objects.  pkg is relative to the go-nfsd module, or a
 // full import path for dependencies.
 func (p *Program) Func(spec string) *ssa.Function {
+	if f := p.funcExact(spec); f != nil {
+		return f
+	}
+	// an UNEXPORTED method may have been turned into a plain function of the same name (or the reverse): the
+	// same helper under another spelling
+	pkgrel, rest := splitSpec(spec)
+	sp := p.SSA(pkgrel)
+	if sp == nil || !IsModulePkg(pkgrel) {
+		return nil
+	}
+	name := rest
+	if strings.HasPrefix(rest, "(") {
+		name = rest[strings.Index(rest, ")")+2:]
+	}
+	if name == "" || !(name[0] >= 'a' && name[0] <= 'z') {
+		return nil
+	}
+	if strings.HasPrefix(rest, "(") {
+		return sp.Func(name)
+	}
+	// function -> method of some type of the package
+	var found *ssa.Function
+	n := 0
+	for _, m := range sp.Members {
+		t, ok := m.(*ssa.Type)
+		if !ok {
+			continue
+		}
+		for _, T := range []types.Type{t.Type(), types.NewPointer(t.Type())} {
+			if sel := p.Prog.MethodSets.MethodSet(T).Lookup(sp.Pkg, name); sel != nil {
+				if f := p.Prog.MethodValue(sel); f != nil && f != found {
+					found = f
+					n++
+				}
+			}
+		}
+	}
+	if n == 1 {
+		return found
+	}
+	return nil
+}
+
+// IsModulePkg: rel names a package of the go-nfsd module (not a dependency).
+func IsModulePkg(rel string) bool { return !strings.Contains(rel, ".") }
+
+func (p *Program) funcExact(spec string) *ssa.Function {
 	pkgrel, rest := splitSpec(spec)
 	sp := p.SSA(pkgrel)
 	if sp == nil {
